@@ -209,23 +209,6 @@ func (c *vCtl) ReceiveControlMsg(m ControlMsg) error {
 	return vErrTimeout
 }
 
-// VH_C15_KitStep: connKit.Read (the plain mailbox connection).
-func VH_C15_KitStep() {
-	l := vInt("reclen")
-	vAssume(l >= vParam("minrec", 1) && l <= 65535)
-	rec := vStream("rec", l)
-	raw, err := NewMsgData(ProtocolVersion, rec).Serialize()
-	vAssert(err == nil, "MsgData.Serialize failed")
-	ctl := &vCtl{raw: raw}
-	k := &connKit{impl: ctl}
-	tail := vTail()
-	k.recvBuffer.Write(tail)
-	buf, m := vBuf()
-	n, rerr := k.Read(buf)
-	left := 1 - ctl.received
-	vStepCheck(tail, rec, buf, n, rerr, m, k.recvBuffer.Bytes(), left, 1)
-}
-
 // VH_C15_EmptyRecord: a zero-length write by the peer must not surface as an
 // error (io.EOF) on a healthy stream: the reader either returns (0, nil) or
 // goes on to the next record.
@@ -328,4 +311,54 @@ func VH_C15_GrpcWrite() {
 	if err == nil && j >= 0 && j < l && j < len(m) {
 		vAssert(m[j] == p[j], "written record decrypts to different bytes")
 	}
+}
+
+// VH_C15_KitReads: connKit.Read, behaviourally: a control message of symbolic
+// length (1..maxmsg, above the largest frame the Noise layer produces) and a
+// short second one are delivered; two Reads with buffers of symbolic sizes
+// must hand out the concatenation of the payloads in order - nothing lost,
+// duplicated or reordered, never more than the buffer holds, never nothing
+// while data is pending. The second Read starts either inside the first
+// message (carry-over of arbitrary length) or at the second one. No internal
+// field of connKit is touched, so the harness survives a change of its
+// buffering representation.
+func VH_C15_KitReads() {
+	maxmsg := vParam("maxmsg", 70000)
+	l1 := vInt("len1")
+	vAssume(l1 >= 1 && l1 <= maxmsg)
+	m1 := vStream("m1", l1)
+	m2 := []byte{0xa1, 0xa2, 0xa3}
+	raw1, err := NewMsgData(ProtocolVersion, m1).Serialize()
+	vAssert(err == nil, "MsgData.Serialize failed")
+	raw2, err := NewMsgData(ProtocolVersion, m2).Serialize()
+	vAssert(err == nil, "MsgData.Serialize failed")
+	k := &connKit{impl: &vCtl{raw: raw1, next: raw2}}
+	pos := 0
+	total := l1 + len(m2)
+	j := vInt("j")
+	for r := 0; r < 2; r++ {
+		c := vInt("bufsize")
+		vAssume(c >= 1 && c <= 70000)
+		buf := make([]byte, c)
+		n, err := k.Read(buf)
+		vAssert(err == nil, "Read failed on a healthy connection with unread data")
+		if err != nil {
+			return
+		}
+		vAssert(n >= 1 && n <= c, "Read reported no bytes, or more bytes than the buffer holds")
+		vAssert(pos+n <= total, "Read returned more bytes than were written")
+		if n < 1 || n > c || pos+n > total {
+			return
+		}
+		if j >= 0 && j < n {
+			i := pos + j
+			if i < l1 {
+				vAssert(buf[j] == m1[i], "bytes read differ from the bytes written (lost, duplicated or reordered)")
+			} else {
+				vAssert(buf[j] == m2[i-l1], "bytes read after the first message differ from the second message")
+			}
+		}
+		pos += n
+	}
+	vReach("kit-reads")
 }
